@@ -8,9 +8,13 @@
     Rust API offers and fall back to the reference elsewhere — see `CC/Simd/Backends.lean`.
   * `dispatch_total`, `dispatch_sound`: the selection ladders of `dispatch!`,
     `dispatch_light128!`, `dispatch_light256!` (`CC/Simd/Dispatch.lean`).
+  * `ladder_extracted`, `final_else_as_modelled`, `machine_types_as_modelled`, `extraction_clean`: the
+    ladder model is what `tools/inventory_dispatch.py` extracts from `x86_64/mod.rs` on every run
+    (`CC/Gen/Dispatch.lean`).
 -/
 import CC.Simd.Proof.BackendEq
 import CC.Simd.Dispatch
+import CC.Gen.Dispatch
 namespace CC.Thm.C03
 open CC CC.Simd CC.Simd.Dispatch
 
@@ -81,6 +85,44 @@ theorem dispatch_sound (m : Macro) (md : Mode) (f : Feat) (h2 : f.sse2 = true) (
     `Machine` type uses — the one ladder mistake a host that has every feature can never exhibit. -/
 theorem arms_sound :
     ∀ m ∈ allMacros, ∀ a ∈ ladder m .std, a.guardImplies = true ∧ a.needsEnabled = true := by decide
+
+/-! ### the ladder model is the source's
+
+`CC/Gen/Dispatch.lean` is regenerated from `utils-simd/ppv-lite86/src/x86_64/mod.rs` before every build. -/
+
+/-- **The modelled ladders are the extracted ones**: per macro and mode the arms of the
+    `if / else if` chain, top to bottom — guard feature, function called, the
+    `#[target_feature(enable = ..)]` list on that function, `Machine` type instantiated. -/
+theorem ladder_extracted : ∀ m mode, CC.Gen.Dispatch.extracted m mode = CC.Simd.Dispatch.ladder m mode := by
+  intro m mode
+  cases m <;> cases mode <;> rfl
+
+/-- the final `else` is `unimplemented!()` in the std expansions and the SSE2 arm in the no-std ones,
+    as modelled (`select = none` ↔ the chain reaches `unimplemented!()`) -/
+theorem final_else_as_modelled : ∀ m mode, CC.Gen.Dispatch.finalElse m mode = CC.Simd.Dispatch.finalElse m mode := by
+  intro m mode
+  cases m <;> cases mode <;> rfl
+
+/-- **The `Machine` type aliases mean what the model assumes**: the extracted parameters
+    (`S3 = YesS3`, `S4 = YesS4`, `Avx2Machine`) of `SSE2 … AVX2` are the `s3`/`s4` flags of the backend
+    each alias denotes (the flags the backend records `Mach.ofBackend` are built from), and
+    `Dispatch.needs` of every x86 backend is exactly what code with those parameters uses. -/
+theorem machine_types_as_modelled :
+    CC.Gen.Dispatch.machineFlags = typeAliases.map (fun nb => (nb.1, nb.2.s3, nb.2.s4, nb.2 == .avx2)) ∧
+    (∀ nb ∈ typeAliases, needs nb.2 = usesOf nb.2.s3 nb.2.s4 (nb.2 == .avx2)) ∧
+    (∀ b : Backend, b ≠ .generic → b ∈ typeAliases.map (·.2)) ∧
+    (∀ m mode, ∀ a ∈ ladder m mode, a.machine ∈ typeAliases.map (·.2)) := by
+  refine ⟨rfl, ?_, ?_, ?_⟩
+  · intro nb h
+    simp only [typeAliases, List.mem_cons, List.mem_nil_iff, or_false] at h
+    rcases h with h | h | h | h | h <;> subst h <;> rfl
+  · intro b hb
+    cases b <;> first | exact absurd rfl hb | decide
+  · intro m mode
+    cases m <;> cases mode <;> decide
+
+/-- the scanner understood every construct of the three macros and of the alias declarations -/
+theorem extraction_clean : CC.Gen.Dispatch.parseProblems = [] := rfl
 
 /-! ### non-vacuity -/
 example : (select .dispatch .std ⟨true, true, true, true, true⟩).map (·.machine) = some .avx2 := by decide
